@@ -270,7 +270,7 @@ func GenSFFlow(t *rapid.T) SFFlow {
 			if rapid.Bool().Draw(t, "nh6") {
 				n = 16
 			}
-			r.Router = &SFRouter{NextHop: rapid.SliceOfN(rapid.Byte(), n, n).Draw(t, "nexthop"), SrcMask: genU32(t, "smask"), DstMask: genU32(t, "dmask")}
+			r.Router = &SFRouter{NextHop: genAddr(t, n, "nexthop"), SrcMask: genU32(t, "smask"), DstMask: genU32(t, "dmask")}
 		default:
 			r.Kind = "unknown"
 			r.Format = genUnknownFlowRecFormat(t)
@@ -335,7 +335,7 @@ func GenSFDatagram(t *rapid.T) SFDatagram {
 	if rapid.IntRange(0, 2).Draw(t, "agent6") == 0 {
 		n = 16
 	}
-	d.Agent = rapid.SliceOfN(rapid.Byte(), n, n).Draw(t, "agent")
+	d.Agent = genAddr(t, n, "agent")
 	ns := rapid.OneOf(rapid.IntRange(1, 3), rapid.IntRange(0, 8)).Draw(t, "nsamples")
 	for i := 0; i < ns; i++ {
 		d.Samples = append(d.Samples, GenSFSample(t))
@@ -403,4 +403,12 @@ func (d *SFDatagram) StructuralOffsets() []int {
 		off += len(enc)
 	}
 	return offs
+}
+
+// genAddr draws 4 address octets, or 16 the way GenV6 does.
+func genAddr(t *rapid.T, n int, label string) Hex {
+	if n == 16 {
+		return genV6(t, label)
+	}
+	return rapid.SliceOfN(rapid.Byte(), n, n).Draw(t, label)
 }
